@@ -112,6 +112,9 @@ structure CmpCfg where
   lineEq : List LField
   lineNe : List LField
   lineHash : List LField
+  /-- `Element.__richcmp__` starts with `if type(self) is not type(other) and (op == 2 or op == 3): return op == 3`
+  (not on the current tree; notes/fixes/C19-1.diff) -/
+  strictKind : Bool
   deriving Repr
 
 def efEq : EField → El → El → Bool
@@ -141,18 +144,18 @@ def isoNe (c : CmpCfg) (a b : Iso) : Bool := c.isoNe.any fun f => ifNe c f a b
 
 /-- Python `a == b` on species.  `Isotope.__richcmp__` returns `NotImplemented` unless *both* are isotopes, so every
 mixed comparison (either order; the subclass's reflected method is tried first and declines) is decided by
-`Element.__richcmp__` on the inherited fields. -/
+`Element.__richcmp__` on the inherited fields — or, with the `strictKind` guard, is `False` / `!=` is `True`. -/
 def pyEq (c : CmpCfg) : Sp → Sp → Bool
   | .el a, .el b => elEq c a b
   | .iso a, .iso b => isoEq c a b
-  | .el a, .iso b => elEq c a b.base
-  | .iso a, .el b => elEq c b a.base
+  | .el a, .iso b => if c.strictKind then false else elEq c a b.base
+  | .iso a, .el b => if c.strictKind then false else elEq c b a.base
 /-- Python `a != b` on species -/
 def pyNe (c : CmpCfg) : Sp → Sp → Bool
   | .el a, .el b => elNe c a b
   | .iso a, .iso b => isoNe c a b
-  | .el a, .iso b => elNe c a b.base
-  | .iso a, .el b => elNe c b a.base
+  | .el a, .iso b => if c.strictKind then true else elNe c a b.base
+  | .iso a, .el b => if c.strictKind then true else elNe c b a.base
 
 /-- the tuple handed to `hash(...)`; `hash` itself is any function of this value -/
 inductive HVal
